@@ -174,7 +174,7 @@ def case(g, tier, ci):
     chans, P = info["chans"], info["P"]
     for _ in range(r.choice([0, 1, 1, 1, 2, 3])):
         side = r.choice(["a", "b"])
-        k = r.choice(["seq", "seq", "amp", "off", "delay", "filter", "SR", "elarg", "read", "newpos", "name"])
+        k = r.choice(["seq", "seq", "amp", "off", "delay", "filter", "SR", "elarg", "read", "newpos", "name", "respell", "badsub"])
         ch = r.choice(chans)
         if k == "name":
             # the name is not compared by ==; then it may not show in description or forged output either
@@ -198,6 +198,20 @@ def case(g, tier, ci):
         elif k == "filter":
             ops.append({"op": "sq.setFilter", "id": side, "ch": ch, "kind": r.choice(["HP", "LP"]), "order": r.choice([1, 2]),
                         "orderIsInt": True, "f_cut": enc(SR * r.choice([0.01, 0.1])), "tau": None})
+        elif k == "badsub":
+            # a refused addSubSequence (the subsequence runs at another sample rate) at an occupied or at the next free
+            # position: the sequence is what it was (seeded C20-m18: stored before the checks)
+            bad = g.fresh("bad")
+            ops += [{"op": "sq.new", "id": bad}, {"op": "sq.setSR", "id": bad, "v": enc(SR * 2)},
+                    {"op": "sq.addSub", "id": side, "pos": r.randint(1, P + 1), "sub": bad}]
+        elif k == "respell":
+            # the same filter declared by its cut-off on one side and by its time constant on the other (f_cut = 1/tau exactly):
+            # two different settings (the descriptions differ), so the sequences are unequal (seeded C20-m17)
+            t = r.choice([0.25, 0.5, 0.125])
+            kd, od = r.choice(["HP", "LP"]), r.choice([1, 2])
+            ops += [{"op": "sq.setFilter", "id": side, "ch": ch, "kind": kd, "order": od, "orderIsInt": True, "f_cut": enc(1 / t), "tau": None},
+                    {"op": "sq.setFilter", "id": "b" if side == "a" else "a", "ch": ch, "kind": kd, "order": od, "orderIsInt": True,
+                     "f_cut": None, "tau": enc(t)}]
         elif k == "SR":
             ops.append({"op": "sq.setSR", "id": side, "v": enc(SR * 2)})
             if r.random() < 0.5:
